@@ -199,6 +199,8 @@ impl Prop for C19 {
                     match it {
                         Item::Use { text } => uses.push(text.clone()),
                         Item::Impl { trait_: Some(t), .. } if t.starts_with("From<") => froms.push(it.clone()),
+                        // the Default trait is the same item under its std and its core path (no_std bindings have to use the latter)
+                        Item::Impl { self_ty, trait_: Some(t), text } if t == "core::default::Default" => rest.push(Item::Impl { self_ty: self_ty.clone(), trait_: Some("std::default::Default".into()), text: text.replacen("core::default::Default", "std::default::Default", 1) }),
                         other => rest.push(other.clone()),
                     }
                 }
